@@ -19,7 +19,8 @@ RULE = ("GEN: TLC (CrashGen.tla) generates client workloads (ingress to a pull r
 
 RE_WORK = re.compile(r'^<<"WORK", "(.*)">>$')
 CANON = [{"op": "ingress", "route": "pull"}, {"op": "ingress", "route": "fan"}, {"op": "publish", "route": "pull", "n": 3}, {"op": "dequeue", "batch": 2},
-         {"op": "ack"}, {"op": "nack"}, {"op": "publish", "route": "fan", "n": 3}, {"op": "dequeue", "batch": 2}, {"op": "dead"}, {"op": "ingress", "route": "fan"}]
+         {"op": "ack"}, {"op": "nack"}, {"op": "publish", "route": "fan", "n": 3}, {"op": "dequeue", "batch": 2}, {"op": "dead"}, {"op": "ingress", "route": "fan"},
+         {"op": "publish", "route": "pull", "n": 3}, {"op": "dequeue", "batch": 2}, {"op": "dead_batch"}, {"op": "dequeue", "batch": 2}, {"op": "ack_batch"}]
 
 
 def workloads(ctx, n, depth):
